@@ -749,9 +749,10 @@ def d1_keys(ck, mod):
     if 'atom' not in a:
         ck.missing('C15.D4.dtype', 'atom= of create_carray')
         return
-    alts = split_alternatives(fi, a['atom'])
-    okd = {'%s._data.dtype' % ARR} | {r + '.dtype' for r in rows}
-    for alt in alts:
+    alts = guarded_alternatives(fi, a['atom'], cst)
+    rowd = {r + '.dtype' for r in rows}
+    okd = {'%s._data.dtype' % ARR} | rowd
+    for alt, guards in alts:
         t = X(fi, alt)
         b = match('tables.Atom.from_dtype(_D)', t) or match('Atom.from_dtype(_D)', t)
         if b is None:
@@ -760,7 +761,224 @@ def d1_keys(ck, mod):
         v = classify(b['_D'], sorted(okd), scope={ARR, I})
         ck.decide(v, 'C15.D4.dtype', mod, c, F, 'atom=%s' % u(t), 'stored element type = dtype of the flat data (ragged) / of the row',
                   'the HDF5 atom must be built from the dtype of the data that is written (array._data.dtype / array[i].dtype)')
+        if v[0] == 'match' and u(b['_D']) in rowd:
+            _row_dtype_only_for_plain_arrays(ck, mod, fi, c, cst, ARR, u(b['_D']), guards)
     ck.floor('C15.D4.dtype', len(alts), 1, 'definitions of the atom')
+
+
+def guarded_alternatives(fi, e, at, depth=6):
+    """split_alternatives that remembers UNDER WHICH CONDITIONS each
+    alternative is the value: [(expression, [(test, polarity)])].  A Name with
+    several simple reaching definitions is replaced by each of them together
+    with the branch conditions that dominate that definition, a conditional
+    expression by each arm together with its test, a single-definition
+    temporary by its value (it may hide alternatives).  The conditions that
+    dominate the statement `at` (where the value is consumed) are part of
+    every alternative.  The expressions are copies whose Name nodes keep their
+    source positions (see `orig`)."""
+    out = []
+
+    def pos(n):
+        return (getattr(n, 'lineno', None), getattr(n, 'col_offset', None))
+
+    def subst(x, pred, new):
+        done = []
+
+        class R(ast.NodeTransformer):
+            def generic_visit(self, node):
+                if not done and pred(node):
+                    done.append(1)
+                    return copy.deepcopy(new)
+                return super().generic_visit(node)
+
+            visit = generic_visit
+        return R().visit(copy.deepcopy(x))
+
+    def go(x, guards, d):
+        if d > 0:
+            for n in walk_expr(x):
+                if isinstance(n, ast.IfExp):
+                    key = (u(n), pos(n))
+                    for arm, pol in ((n.body, True), (n.orelse, False)):
+                        go(subst(x, lambda m: isinstance(m, ast.IfExp) and (u(m), pos(m)) == key, arm), guards + [(n.test, pol)], d - 1)
+                    return
+            bound = set()
+            for n in walk_expr(x):
+                if isinstance(n, ast.comprehension):
+                    bound |= set(target_names(n.target))
+            for n in walk_expr(x):
+                if not (isinstance(n, ast.Name) and isinstance(n.ctx, ast.Load)) or n.id in bound:
+                    continue
+                on = n if n in fi.stmt_of else orig(fi, n)
+                if on is None:
+                    continue
+                try:
+                    defs = fi.defs_of_use(on)
+                except Exception:
+                    continue
+                if not defs or not all(isinstance(s, (ast.Assign, ast.AnnAssign)) for s in defs):
+                    continue
+                if len(defs) == 1:
+                    s0 = next(iter(defs))
+                    # the consumed value itself: WHICH expression it is bound to (as split_alternatives); inside it: temporaries only
+                    vals = [(s0, fi.def_value(s0, on.id) if n is x else _temp(fi, on, need_pure=False))]
+                else:
+                    vals = [(s, fi.def_value(s, on.id)) for s in defs]
+                if any(v is None for _, v in vals):
+                    continue
+                key = (n.id, pos(n))
+                for s, v in vals:
+                    go(subst(x, lambda k: isinstance(k, ast.Name) and (k.id, pos(k)) == key, v), guards + guards_of(fi, s), d - 1)
+                return
+        out.append((x, guards))
+    go(e, list(guards_of(fi, at)), depth)
+    return out
+
+
+def _depends_on(fi, e, name, depth=6, seen=None):
+    """Data dependence (backward slice through the reaching definitions): may
+    the value of expression `e` depend on the local `name`?"""
+    seen = set() if seen is None else seen
+    for n in walk_expr(e):
+        if not (isinstance(n, ast.Name) and isinstance(n.ctx, ast.Load)):
+            continue
+        if n.id == name:
+            return True
+        on = n if n in fi.stmt_of else orig(fi, n)
+        if on is None or depth <= 0:
+            continue
+        try:
+            defs = fi.defs_of_use(on)
+        except Exception:
+            continue
+        for s in defs:
+            if not isinstance(s, ast.AST) or (id(s), n.id) in seen:
+                continue
+            seen.add((id(s), n.id))
+            v = fi.def_value(s, n.id)
+            if v is None:
+                if name in names_loaded(s):
+                    return True
+            elif _depends_on(fi, v, name, depth - 1, seen):
+                return True
+    return False
+
+
+def _ragged_class_facts(mod):
+    """(attributes every RaggedArray has, attribute of the row view, the
+    statements that build the row view as an OBJECT block) - read off the class:
+    __slots__ / attributes stored by __init__ / methods; `return self.<rows>[i]`
+    in __getitem__; `self.<rows> = np.array(..., dtype='O')`."""
+    cls = mod.classes.get('RaggedArray')
+    if cls is None:
+        return None
+    attrs = set()
+    for s in cls.body:
+        if isinstance(s, (ast.FunctionDef, ast.AsyncFunctionDef)):
+            attrs.add(s.name)
+        elif isinstance(s, ast.Assign) and any(isinstance(t, ast.Name) and t.id == '__slots__' for t in s.targets) and \
+                isinstance(s.value, (ast.Tuple, ast.List)):
+            attrs |= {const_value(x) for x in s.value.elts if isinstance(const_value(x), str)}
+    rows = set()
+    for m in cls.body:
+        if isinstance(m, ast.FunctionDef) and m.name == '__getitem__' and len(params(m)) >= 2:
+            S0, IDX = params(m)[:2]
+            gfi = finfo(mod, m)
+            for r in returns_of(m):
+                t = X(gfi, r.value) if r.value is not None else None
+                if isinstance(t, ast.Subscript) and isinstance(t.slice, ast.Name) and t.slice.id == IDX and isinstance(t.value, ast.Attribute) \
+                        and isinstance(t.value.value, ast.Name) and t.value.value.id == S0:
+                    rows.add(t.value.attr)
+    ROWS = next(iter(rows)) if len(rows) == 1 else None
+    objs = []
+    if ROWS is not None:
+        for m in cls.body:
+            if not isinstance(m, ast.FunctionDef) or not params(m):
+                continue
+            S0 = params(m)[0]
+            for s in walk_local(m):
+                if isinstance(s, ast.Assign) and isinstance(s.value, ast.Call) and any(
+                        isinstance(t, ast.Attribute) and t.attr == ROWS and isinstance(t.value, ast.Name) and t.value.id == S0 for t in s.targets):
+                    d = kwarg(s.value, 'dtype')
+                    if d is not None and (const_value(d) in ('O', 'object') or u(d) in ('object', 'np.object_', 'np.object')):
+                        objs.append(s)
+    return attrs, ROWS, objs
+
+
+def _row_dtype_only_for_plain_arrays(ck, mod, fi, c, cst, ARR, dtxt, guards):
+    """The element type of a RaggedArray is that of its FLAT data; `array[i]`
+    is answered from the row view, which the class builds as an object block
+    (`np.array(partition_list(...), dtype='O')`): for rows of equal length
+    that is a 2-D object array whose rows have dtype object.  So the dtype of
+    the ROW may become the stored element type only where the array is known
+    not to be a RaggedArray - under a dominating `not hasattr(array, <attribute
+    every RaggedArray has>)` / `not isinstance(array, RaggedArray)` /
+    `isinstance(array, np.ndarray)`, or where the only definitions of `array`
+    that reach are literal row lists.  Three-valued: a row dtype that ragged
+    arrays reach is a VIOLATION when the class does build object rows; a
+    condition on `array` the rule cannot read is INCOMPLETE."""
+    rule = 'C15.D4.dtype.ragged-rows'
+    F = 'save'
+    facts = _ragged_class_facts(mod)
+    if facts is None:
+        ck.missing(rule, 'class RaggedArray in %s' % mod.rel)
+        return
+    attrs, ROWS, objs = facts
+    state = 'any'           # not-ragged < unknown < ragged < any
+    seen_states = []
+    for test, pol in guards:
+        t = xexpand(fi, test)
+        cs = conjuncts(t, pol)
+        if cs is None:
+            if _depends_on(fi, test, ARR):
+                seen_states.append('unknown')
+            continue
+        for a in cs:
+            e, p = (a[1], a[2]) if isinstance(a, tuple) else (None, None)
+            st = None
+            if isinstance(e, ast.Call) and isinstance(e.func, ast.Name) and len(e.args) == 2 and not e.keywords and \
+                    isinstance(e.args[0], ast.Name) and e.args[0].id == ARR:
+                if e.func.id == 'hasattr' and const_value(e.args[1]) in attrs:
+                    st = 'ragged' if p else 'not-ragged'
+                elif e.func.id == 'isinstance':
+                    kinds = [x for x in (e.args[1].elts if isinstance(e.args[1], ast.Tuple) else [e.args[1]])]
+                    names = {u(x).split('.')[-1] for x in kinds}
+                    if names == {'RaggedArray'}:
+                        st = 'ragged' if p else 'not-ragged'
+                    elif p and names <= {'ndarray', 'list', 'tuple'}:
+                        st = 'not-ragged'
+            if st is None:
+                parts = [a.lhs, a.rhs] if isinstance(a, Cmp) else [e]
+                if any(x is not None and _depends_on(fi, x, ARR) for x in parts):
+                    st = 'unknown'          # some other condition on the array: not one the rule can read
+            if st is not None:
+                seen_states.append(st)
+    if 'not-ragged' in seen_states:
+        state = 'not-ragged'
+    elif 'unknown' in seen_states:
+        state = 'unknown'
+    elif 'ragged' in seen_states:
+        state = 'ragged'
+    if state != 'not-ragged':
+        defs = fi.rd.defs_at(cst, ARR)
+        if defs and all(isinstance(d, ast.Assign) and isinstance(fi.def_value(d, ARR), (ast.List, ast.Tuple)) for d in defs):
+            state = 'not-ragged'
+    what = 'arrays whose row dtype `%s` becomes the stored element type' % dtxt
+    if state == 'not-ragged':
+        ck.ok(rule, mod, c, what, 'the dtype of the row is used only where the array is not a RaggedArray')
+    elif state == 'unknown' or ROWS is None or not objs:
+        ck.missing(rule, 'whether a RaggedArray can reach the atom built from the row dtype `%s` in ra.save (%s:%s): %s'
+                   % (dtxt, mod.rel, getattr(c, 'lineno', '?'),
+                      'a dominating condition on `%s` is not a hasattr/isinstance test the rule can read' % ARR if state == 'unknown' else
+                      'the row view of RaggedArray.__getitem__ / its element type could not be read off the class'))
+    else:
+        ck.bad(rule, mod, c, F, what,
+               'the atom is built from the dtype of the ROW (`%s`) on a path a RaggedArray reaches (%s).  The element type of a RaggedArray is that of '
+               'its flat data; `array[i]` is answered from self.%s, which the class builds with dtype=object (L%s): for rows of equal length it is a '
+               '2-D object block whose rows have dtype object - tables.Atom.from_dtype rejects it (nothing is stored) or the stored element type is '
+               'not the array\'s.  The row dtype may be used only under `not hasattr(%s, <flat data>)`; a RaggedArray must be stored with '
+               '%s.<flat data>.dtype' % (dtxt, 'under a condition that selects RaggedArrays' if state == 'ragged' else 'no dominating test excludes it',
+                                         ROWS, ', '.join(str(getattr(s, 'lineno', '?')) for s in objs[:4]), ARR, ARR))
 
 
 def _every_row_written(ck, mod, fi, fn, loop, create, store):
@@ -960,6 +1178,11 @@ def d_load(ck, mod):
             SH = it
             sv = resolve(fi, it)
             ssite = fi.stmt(sv) if sv is not it else lsite
+            if single_comp(sv) is None and isinstance(it, ast.Name):
+                # a list gathered by ONE append loop is the comprehension it equals (_append_loop_comp)
+                tv = _temp(fi, it, need_pure=False)
+                if single_comp(tv) is not None:
+                    sv = tv
             sc2 = single_comp(sv)
             if sc2 is None or not isinstance(sc2[1], ast.Name):
                 ck.missing('C15.D3.same-keys', 'the shapes the lengths are computed from are not a comprehension over keys: %s' % u(sv)[:120])
@@ -993,7 +1216,8 @@ def d_load(ck, mod):
             ck.missing('C15.D3.buffer', 'allocation of the buffer not recognised: %s' % u(csite)[:120])
         if 'shape' in ba:
             L = LEN.id
-            sh = X(fi, ba['shape'], stop=(L,))
+            # the gathered shapes are a role (SH, located above): expanded up to it, not through it
+            sh = X(fi, ba['shape'], stop=(L,) + ((SH.id,) if isinstance(SH, ast.Name) else ()))
             forms = ['(sum(%s),) + _S[0][1:]' % L, '(sum(%s), *_S[0][1:])' % L, '(sum(%s),) + tuple(_S[0][1:])' % L,
                      'tuple([sum(%s)] + list(_S[0][1:]))' % L, '(sum(%s),) + _S[0][1:]' % L]
             scope = {L} | ({SH.id} if isinstance(SH, ast.Name) else set())
@@ -1035,8 +1259,9 @@ def d_load(ck, mod):
             if not isinstance(tgt, ast.Name) or match("_H.get_node(where='/', name=%s).dtype" % tgt.id, other) is None:
                 continue
             found += 1
-            dn = [x for x in ast.walk(n.test) if isinstance(x, ast.Name) and x.id == DT.id]
-            ok = isinstance(it, ast.Name) and it.id == KEYS and fi.cfg.dominates(n, ret) and all(fi.same_value(x, DT) for x in dn)
+            dn = [orig(fi, x) for side in (cmp_.lhs, cmp_.rhs) for x in ast.walk(side) if isinstance(x, ast.Name) and x.id == DT.id]
+            ok = isinstance(it, ast.Name) and it.id == KEYS and fi.cfg.dominates(n, ret) and bool(dn) and \
+                all(x is not None and fi.same_value(x, DT) for x in dn)
             ck.check(ok, 'C15.D4.dtype', mod, n, F, u(n.test)[:140], 'all rows must share one dtype, else raise',
                      'load must reject (before returning) any key whose dtype differs from the buffer dtype')
         if not found:
@@ -1340,11 +1565,20 @@ def _quantified_mismatch(test, fi=None):
     element violates the equality.  With `fi` a sequence that was itself
     gathered by a comprehension is fused into the quantifier (fuse_comp)."""
     pol = True
-    while isinstance(test, ast.UnaryOp) and isinstance(test.op, ast.Not):
-        test, pol = test.operand, not pol
+    for _ in range(6):
+        while isinstance(test, ast.UnaryOp) and isinstance(test.op, ast.Not):
+            test, pol = test.operand, not pol
+        # a boolean temporary (`agree = all([...])` ... `if not agree:`) stands for the quantifier it was bound to
+        v = _temp(fi, test, need_pure=False) if fi is not None and isinstance(test, ast.Name) else None
+        if v is None:
+            break
+        test = v
     if not (isinstance(test, ast.Call) and isinstance(test.func, ast.Name) and test.func.id in ('all', 'any') and len(test.args) == 1):
         return None
-    sc = single_comp(test.args[0])
+    seq = test.args[0]
+    if fi is not None and isinstance(seq, ast.Name):
+        seq = _temp(fi, seq, need_pure=False) or seq        # the list of element-wise verdicts, gathered first
+    sc = single_comp(seq)
     if sc is not None and fi is not None:
         sc = fuse_comp(fi, sc)
     if sc is None or sc[3]:
